@@ -676,6 +676,8 @@ func (v fval) sprint() string { // what fmt.Sprint prints for the Go value
 		return "[" + strings.Join(v.ss, " ") + "]"
 	case "handle":
 		return "{" + v.s + "}"
+	case "raw":
+		return v.s
 	}
 	return "?"
 }
@@ -714,7 +716,11 @@ type ffn struct {
 	name    string
 	tparams []string // type parameter names
 	params  []string // kinds, or "T:<kind>" = type parameter T instantiated at kind
-	ret     string   // kind, "unit", or "T:<kind>"
+	ret     string   // kind, "unit", "T:<kind>", or "zeros" ([]R for the phantom parameter)
+	// phantom: the function has a type parameter R that occurs only in its result type []R and is
+	// instantiated at this kind. Go cannot infer it, and the printed zero values differ per kind, so
+	// the explicit type argument has to reach the emitted call in every call form.
+	phantom string
 }
 
 func kindOf(p string) string {
@@ -734,12 +740,18 @@ func foTypeOf(p string, qual string) string {
 	if p == "handle" {
 		return "Handle" // unqualified inside its own package_info block
 	}
+	if p == "zeros" {
+		return "[]R"
+	}
 	return fTypes[p][0]
 }
 
 func goTypeOf(p string) string {
 	if i := strings.IndexByte(p, ':'); i >= 0 {
 		return p[:i]
+	}
+	if p == "zeros" {
+		return "[]R"
 	}
 	return fTypes[p][1]
 }
@@ -783,6 +795,8 @@ func (f ffn) result(args []fval) fval {
 		}
 	}
 	switch f.ret {
+	case "zeros":
+		return fval{k: "raw", s: map[string]string{"int": "[0 0]", "string": "[ ]", "bool": "[false false]"}[f.phantom]}
 	case "int":
 		return fval{k: "int", i: len(desc)}
 	case "bool":
@@ -841,6 +855,8 @@ func (f ffn) goImpl() string {
 		b.WriteString("\treturn []string{desc, \"end\"}\n")
 	case f.ret == "handle":
 		b.WriteString("\treturn Handle{S: desc}\n")
+	case f.ret == "zeros":
+		b.WriteString("\treturn make([]R, 2)\n")
 	}
 	b.WriteString("}\n\n")
 	return b.String()
@@ -897,6 +913,11 @@ func genFFICase(rt *rapid.T) (Case, []string) {
 		f.ret = append(kinds, "unit", "handle")[w.n(len(kinds)+1, "rkind")]
 		if generic && w.n(1, "retT") == 0 {
 			f.ret = f.params[0]
+		}
+		if !generic && w.n(3, "phantom") == 0 {
+			f.tparams = []string{"R"}
+			f.phantom = []string{"int", "string", "bool"}[w.n(2, "phantomAt")]
+			f.ret = "zeros"
 		}
 		fns = append(fns, f)
 	}
@@ -981,7 +1002,10 @@ func genFFICase(rt *rapid.T) (Case, []string) {
 			continue
 		}
 		targs := ""
-		if len(f.tparams) > 0 && w.n(1, "explicitTargs") == 0 {
+		if f.phantom != "" {
+			targs = "<" + f.phantom + ">"
+			w.labels["type parameter only in the result, instantiated explicitly"] = true
+		} else if len(f.tparams) > 0 && w.n(1, "explicitTargs") == 0 {
 			var ts []string
 			for i := range f.tparams {
 				ts = append(ts, fTypes[kindOf(f.params[i])][0])
